@@ -254,7 +254,8 @@ func init() {
 		Level: "exploration",
 		Rule: "for each sequence kind (array of distinct ints, ASCII string, multi-byte string) and each length 0..N: every (start, stop, step) from W³ with W = [-N-2,N+2] ∪ {nil} ∪ int64 extremes (step also 0), " +
 			"as range values through `s[r]`, every index i in W through `s[i]`, and a seed-chosen sample through source text `s[a:b:c]`. " +
-			"non-trivial = the oracle judged the result (all cases); distinct = distinct (kind, length, start class, stop class, step class, result length) tuples",
+			"non-trivial = the oracle judged the result (all cases); distinct = distinct (kind, length, start class, stop class, step class, result length) tuples" +
+			" Added: arrays with nil elements; every range value is first used on a sequence of another length.",
 		Assumptions: []string{
 			"the slice rule of the statement coincides with Python's slice.indices (clamping per direction); transcribed in refSlice",
 			"a case that does not return within the 60 s watchdog or exceeds the 3 GiB heap guard is a violation (the specified computation is O(n), n ≤ 8)",
